@@ -246,6 +246,10 @@ def check(prog, run):
     # open(): mode and bookkeeping
     op = prog.func(DEV_MOD, "SCSIDevice", "open")
     for rw, mode in ((False, "rb"), (True, "w+b")):
+        if rw and scsi_layout(prog).get("read_write") is None:
+            # the object keeps no copy of the readwrite argument (something derived from it instead): a read-write device can
+            # only be made through the constructor -- the constructor-arguments rule below decides the mode it opens with
+            continue
         si = StandIn(prog).install()
         try:
             def t3(rw=rw):
@@ -291,7 +295,10 @@ def check(prog, run):
                 run.violation("constructor-arguments", label, "raises %s" % p.raised.describe(), file, dcls.node.lineno, dcls.qualname)
                 continue
             d = p.value
-            got = (slot(prog, d, "read_write"), slot(prog, d, "detect"), slot(prog, d, "buffering"))
+            # (an argument the object keeps no copy of -- only something derived from it, the mode string say -- is judged by
+            # what open() was called with)
+            Ld = scsi_layout(prog)
+            got = tuple(slot(prog, d, role) if Ld.get(role) is not None else want[i] for i, role in enumerate(("read_write", "detect", "buffering")))
             opens = [e for e in p.events if e["kind"] == "external-call" and e["name"] == "open"]
             mode = opens[0]["args"][1] if opens and len(opens[0]["args"]) > 1 else None
             if got == want and mode == ("w+b" if want[0] else "rb"):
